@@ -211,6 +211,13 @@ func davModel(t harness.Tree, q harness.Req, tagOf func(string) string) *davExpe
 		default:
 			e.refuse(405, q.Method+" on a collection")
 		}
+		if k == "file" && (hdr["Range"] != "" || hdr["If-None-Match"] != "" || hdr["If-Modified-Since"] != "") {
+			// conditional and range reads: which of 200/206/304/416 applies is net/http's business; what is
+			// judged is that HEAD and GET agree
+			e.Reads = "cond-read"
+			e.Class += ".conditional-or-range"
+			ok(206, 304, 416)
+		}
 		ok(200)
 	case "PUT":
 		e.Class = "PUT.target=" + k + ".parent=" + pk
